@@ -252,8 +252,9 @@ def build_state(name):
 
 def live_packet(w, victim, chunk):
     """A packet as the peer would send it to the victim: right ports and verification tag."""
-    peer = "A" if victim == "B" else "B"
-    tag = w.sctp[peer]._remote_verification_tag if not isinstance(chunk, S.InitChunk) else 0
+    # the tag the victim expects is its own local verification tag (known to the peer from INIT / INIT ACK; in the earliest
+    # states the harness simply uses it - a packet that guesses the tag is still a datagram from the network)
+    tag = w.sctp[victim]._local_verification_tag if not isinstance(chunk, S.InitChunk) else 0
     return S.serialize_packet(5000, 5000, tag, chunk)
 
 
@@ -314,8 +315,7 @@ def sctp_seed_packets(w, victim):
 def boundary_packets(w, victim):
     """F3: per chunk type, products of boundary values of length / count / offset fields (built as raw bytes, re-sealed)."""
     v = w.sctp[victim]
-    peer = "A" if victim == "B" else "B"
-    tag = w.sctp[peer]._remote_verification_tag
+    tag = v._local_verification_tag
     cum = v._last_received_tsn if v._last_received_tsn is not None else 0
     hdr = struct.pack("!HHL", 5000, 5000, tag) + b"\x00\x00\x00\x00"
 
@@ -350,6 +350,9 @@ def boundary_packets(w, victim):
                     out.append(("sack/%d/%r/%r/%d" % (nb, g1, g2, c), pkt(3, 0, body)))
     for claimed in (1, 5, 65535):
         out.append(("sack-count/%d" % claimed, pkt(3, 0, struct.pack("!LLHH", 1, 2, claimed, claimed))))
+    # a SACK acknowledging TSNs that were never sent (beyond the next TSN to be assigned) is nonsense
+    for ahead in (0, 1, 1000, 2 ** 31 - 2):
+        out.append(("sack-beyond/%d" % ahead, pkt(3, 0, struct.pack("!LLHH", (v._local_tsn + ahead) % 2 ** 32, 131072, 0, 0))))
     # DATA: stream ids / sequence numbers / TSNs relative to the association / PPIDs / flags
     for tsn in (cum - 1, cum, cum + 1, cum + 2, cum + 2 ** 31 - 1, cum + 2 ** 31, cum + 2 ** 32 - 2):
         for sid in (0, 1, 65534, 65535):
@@ -514,7 +517,7 @@ def _sctp_task(task, T):
         # the (harness) peer may send next, so the exchange is only demanded when no sequence space was consumed - and always
         # after chunk types that have no business changing an established association (INIT, INIT ACK, COOKIE ECHO / ACK,
         # HEARTBEAT, HEARTBEAT ACK, ERROR, unknown types).
-        must_stay_live = not (chunk_types(data) & {0, 3, 130, 192, 6, 7, 8, 14}) or seqspace(v) == space0
+        must_stay_live = not (chunk_types(data) & {0, 3, 130, 192, 6, 7, 8, 14}) or seqspace(v) == space0 or desc.startswith("sack-beyond")
         if sig is None and changed and must_stay_live and state.startswith("established") and v.state == "connected":
             w.wire.clear()
             kind2, msg = guarded(liveness, w, cpu=5.0)
@@ -726,6 +729,100 @@ def empty_datagram(T):
         loop.uninstall()
 
 
+_GOOD = {}
+
+
+def good_frames(codec):
+    """three genuinely valid encoded frames of the codec (made with the library's own encoders)"""
+    import fractions
+    import av
+    from aiortc.codecs import get_encoder, depayload
+    name = codec.mimeType
+    if name in _GOOD:
+        return _GOOD[name]
+    enc = get_encoder(codec)
+    out = []
+    for k in range(3):
+        if name.startswith("audio"):
+            f = av.AudioFrame(format="s16", layout="stereo" if "opus" in name else "mono", samples=960 if "opus" in name else 160)
+            for pl in f.planes:
+                pl.update(bytes(pl.buffer_size))
+            f.sample_rate = 48000 if "opus" in name else 8000
+            f.pts = k * f.samples
+            f.time_base = fractions.Fraction(1, f.sample_rate)
+            payloads, ts = enc.encode(f)
+        else:
+            f = av.VideoFrame(width=64, height=48, format="yuv420p")
+            for pl in f.planes:
+                pl.update(bytes(pl.buffer_size))
+            f.pts = k * 3000
+            f.time_base = fractions.Fraction(1, 90000)
+            payloads, ts = enc.encode(f, force_keyframe=True)
+        out.append(b"".join(depayload(codec, p) for p in payloads))
+    _GOOD[name] = out
+    return out
+
+
+# ----------------------------------------------------------------------------- family D: the decoder worker (the tail of the receive path)
+def decoder_family(T):
+    """Codec payloads as they come out of the jitter buffer are handed to the real `decoder_worker` (run in a real thread,
+    as in production): whatever the payload, the worker must survive, keep decoding later frames and end the track when
+    told to."""
+    import queue
+    import threading
+    import aiortc.rtcrtpreceiver as RX
+    from aiortc.jitterbuffer import JitterFrame
+    from aiortc.rtcrtpparameters import RTCRtpCodecParameters
+    from vt.loop import VLoop
+    codecs = [RTCRtpCodecParameters(mimeType="audio/opus", clockRate=48000, channels=2, payloadType=96),
+              RTCRtpCodecParameters(mimeType="audio/PCMU", clockRate=8000, channels=1, payloadType=0),
+              RTCRtpCodecParameters(mimeType="audio/PCMA", clockRate=8000, channels=1, payloadType=8),
+              RTCRtpCodecParameters(mimeType="video/VP8", clockRate=90000, payloadType=97),
+              RTCRtpCodecParameters(mimeType="video/H264", clockRate=90000, payloadType=98)]
+    payloads = [b"", b"\x00", b"\xff", b"\xff\xff\xff", bytes(range(40)), b"\x7f" * 160, b"\x00\x00\x00\x01\x65", b"\x80" * 1200]
+    errors = []
+    old_hook = threading.excepthook
+    threading.excepthook = lambda args: errors.append("%s: %s" % (args.exc_type.__name__, args.exc_value))
+    try:
+        for codec in codecs:
+            for bad in payloads:
+                T.case(None)
+                T.count("decoder-worker")
+                loop = VLoop().install()
+                try:
+                    in_q = queue.Queue()
+                    track = RX.RemoteStreamTrack(kind=codec.mimeType.split("/")[0])
+                    del errors[:]
+                    th = threading.Thread(target=RX.decoder_worker, args=(loop, in_q, track._queue), name="decoder-under-test")
+                    th.start()
+                    goods = good_frames(codec)
+                    for k, data in enumerate([goods[0], bad, goods[1], goods[2]]):
+                        in_q.put((codec, JitterFrame(data=data, timestamp=3000 * k)))
+                    in_q.put(None)
+                    th.join(10.0)
+                    loop.drain()
+                    got = []
+                    while not track._queue.empty():
+                        got.append(track._queue.get_nowait())
+                    sig = None
+                    if th.is_alive():
+                        sig = ("decoder/hangs", "the decoder worker did not finish")
+                    elif errors:
+                        sig = ("decoder/worker-died", "the decoder thread died: %s" % errors[0])
+                    elif not got or got[-1] is not None:
+                        sig = ("decoder/track-not-ended", "the track was not told that it has ended")
+                    elif len(got) - 1 < 2:
+                        sig = ("decoder/stops-decoding", "only %d frames were decoded from 3 valid frames: nothing is decoded any more "
+                               "after the bad frame" % (len(got) - 1))
+                    if sig:
+                        T.violation("%s|%s" % (sig[0], codec.name), sig[0], "%s [codec %s, a frame of %d bytes %r between valid frames]" % (
+                            sig[1], codec.mimeType, len(bad), bad[:8]), dict(kind="decoder", codec=codec.mimeType, data=bad.hex()))
+                finally:
+                    loop.uninstall()
+    finally:
+        threading.excepthook = old_hook
+
+
 # ----------------------------------------------------------------------------- entry points
 def run(tier, seed):
     thorough = tier == "thorough"
@@ -745,6 +842,7 @@ def run(tier, seed):
     for fname in ("parsers_task", "sctp_task", "rtp_task"):
         total.merge(pmap("props.c05", fname, [t for f, t in tasks if f == fname], seed=seed))
     empty_datagram(total)
+    decoder_family(total)
     return result(
         PID, total,
         rule="families, each enumerated completely: (P) 10 wire parsers x {every truncation, every single-bit flip, every byte "
@@ -761,7 +859,8 @@ def run(tier, seed):
              "_handle_rtcp_data with a live RTCRtpReceiver/RTCRtpSender behind the real router (stream start low / at the wrap): "
              "mutations of captured live packets, every extension id 1-15 x length 0-4 in one/two-byte form, RTX payloads 0-3 bytes, "
              "every truncation of VP8 / STAP-A / FU-A descriptors, RTCP count/length products, REMB count vs actual; the empty "
-             "datagram through _recv_next. distinct by construction (a case = (family, position, value))",
+             "datagram through _recv_next; (D) the real decoder_worker in a real thread for Opus / PCMU / PCMA / VP8 / H.264 x an "
+             "empty, tiny, garbage or oversized frame between valid ones: the worker survives and still ends the track. distinct by construction (a case = (family, position, value))",
         assumptions=["arbitrary byte strings beyond the enumerated families are not covered",
                      "CPU budget 2 s per datagram (a 1200-byte DATA chunk costs microseconds)"],
         min_distinct=1000)
